@@ -51,8 +51,21 @@ def _cvc5_check(text, timeout_ms):
 
 def solve_one(job):
     name, text, timeout_ms, seed, use_cvc5 = job
+    spent = 0.0
+    if isinstance(text, (list, tuple)):
+        # variants: the goal under growing subsets of the hypotheses; any `unsat` discharges the obligation
+        for v in text[:-1]:
+            try:
+                r, dt, model, reason = _z3_check(v, min(4000, timeout_ms), seed)
+            except Exception:
+                continue
+            spent += dt
+            if r == 'unsat':
+                return {'name': name, 'verdict': 'unsat', 'solver': 'z3', 'time_s': round(spent, 3), 'model': None, 'reason': '', 'variant': 'relevant-hypotheses'}
+        text = text[-1]
     try:
         r, dt, model, reason = _z3_check(text, timeout_ms, seed)
+        dt += spent
     except Exception as e:
         return {'name': name, 'verdict': 'error', 'solver': 'z3', 'time_s': 0.0, 'reason': repr(e)}
     res = {'name': name, 'verdict': r, 'solver': 'z3', 'time_s': round(dt, 3), 'model': model, 'reason': reason}
